@@ -51,6 +51,10 @@ func serverName(n int) string {
 	if n == 0 {
 		return "192.0.2.77"
 	}
+	// n = -1: a name with upper-case letters: crypto/tls sends it verbatim, the backend sees it verbatim, so must the Conn report it
+	if n == -1 {
+		return "Mixed.CASE.Example"
+	}
 	// valid DNS name of exactly n bytes with >= 2 labels
 	if n < 3 {
 		n = 3
@@ -238,6 +242,10 @@ func evalCfg(c cfg) (key, what, oc string) {
 		if conn.ServerName() != wantSN || o.SeenName != wantSN {
 			return "server-name:" + phase, fmt.Sprintf("Conn.ServerName()=%q backend saw %q, client asked %q (server_name on the wire: %q)", conn.ServerName(), o.SeenName, name, wantSN)
 		}
+		if l := conn.ALPNProtos(); len(l) > 0 {
+			// a caller that sorts / edits the list it was handed must not change what the Conn reports (nor what the retry rules compare)
+			l[0] = "tampered-by-caller"
+		}
 		if !slices.Equal(conn.ALPNProtos(), clientALPNs[c.ClientALPN]) || !slices.Equal(o.SeenProtos, clientALPNs[c.ClientALPN]) {
 			return "alpn-list:" + phase, fmt.Sprintf("Conn.ALPNProtos()=%q backend saw %q, client offered %q", conn.ALPNProtos(), o.SeenProtos, clientALPNs[c.ClientALPN])
 		}
@@ -308,15 +316,15 @@ func classify(errStr string, c cfg) string {
 }
 
 func Run(r *ev.Run) {
-	r.Rule("E1 exhaustive product of real-stack configurations: client curve lists {default(X25519MLKEM768 first), [X25519], [P256], [X25519,P256]} x backend curves {default,[P256]} (HelloRetryRequest whenever the first share is unusable) x client ALPN {none,[h2],[h2,http/1.1]} x backend ALPN {none,[http/1.1,h2]} x server name {an IP literal (no server_name sent), DNS names of 3, 63, 253 bytes} x session cache {cold, warm: second connection resumes} x client certificate {none, small, 17 KB} x backend certificate {0.5, 12, 17, 40 KB} x key set {[T],[T,other id],[same id,T],[T,same id]} x AEAD {1,2,3} x client config {fresh, stale other id, stale same id, stale same id with a former public name}; quick = full product over a reduced domain per dimension (stated in evidence), thorough = full product. Each point: direct handshake without ech.Conn as oracle, then split-mode handshake(s); distinct = distinct configuration points that are conforming (direct handshake succeeds)")
+	r.Rule("E1 exhaustive product of real-stack configurations: client curve lists {default(X25519MLKEM768 first), [X25519], [P256], [X25519,P256]} x backend curves {default,[P256]} (HelloRetryRequest whenever the first share is unusable) x client ALPN {none,[h2],[h2,http/1.1]} x backend ALPN {none,[http/1.1,h2]} x server name {a name with upper-case letters, an IP literal (no server_name sent), DNS names of 3, 63, 253 bytes} x session cache {cold, warm: second connection resumes} x client certificate {none, small, 17 KB} x backend certificate {0.5, 12, 17, 40 KB} x key set {[T],[T,other id],[same id,T],[T,same id]} x AEAD {1,2,3} x client config {fresh, stale other id, stale same id, stale same id with a former public name}; quick = full product over a reduced domain per dimension (stated in evidence), thorough = full product. Each point: direct handshake without ech.Conn as oracle, then split-mode handshake(s); distinct = distinct configuration points that are conforming (direct handshake succeeds)")
 	r.Assume("crypto/tls (go1.24) client and server are conforming TLS 1.3 / ECH implementations", "real TLS stacks run goroutines outside any scheduler: a failing point is re-executed and reported only if it fails 5 times out of 5 (else counted as unstable)")
 	type dom struct {
 		cc, bc, ca, ba, nl, warm, cert, chain, ks, aead, stale []int
 	}
-	d := dom{cc: []int{0, 1, 2, 3}, bc: []int{0, 1}, ca: []int{0, 1, 2}, ba: []int{0, 1}, nl: []int{0, 3, 63, 253}, warm: []int{0, 1},
+	d := dom{cc: []int{0, 1, 2, 3}, bc: []int{0, 1}, ca: []int{0, 1, 2}, ba: []int{0, 1}, nl: []int{-1, 0, 3, 63, 253}, warm: []int{0, 1},
 		cert: []int{-1, 0, 17000}, chain: []int{0, 12000, 17000, 40000}, ks: []int{0, 1, 2, 3}, aead: []int{1, 2, 3}, stale: []int{0, 1, 2, 3}}
 	if !r.Thorough() {
-		d = dom{cc: []int{0, 3}, bc: []int{0, 1}, ca: []int{0, 2}, ba: []int{0, 1}, nl: []int{0, 3, 253}, warm: []int{0, 1},
+		d = dom{cc: []int{0, 3}, bc: []int{0, 1}, ca: []int{0, 2}, ba: []int{0, 1}, nl: []int{-1, 0, 3, 253}, warm: []int{0, 1},
 			cert: []int{-1, 17000}, chain: []int{0, 17000, 40000}, ks: []int{0, 2}, aead: []int{1, 3}, stale: []int{0, 1, 2, 3}}
 	}
 	r.Set("domain", fmt.Sprintf("%+v", d))
